@@ -68,6 +68,8 @@ def real_runnable(desc: dict) -> bool:
     fsd = desc["fs"]
     if fsd.get("ro") or fsd.get("unreadable"):
         return False  # we run as root: permission bits are not enforced on the real file system
+    if fsd.get("fifos"):
+        return False  # a real FIFO needs a concurrent writer
     if desc["knobs"].get("locale") != "utf-8":
         return False  # the real environment's locale is UTF-8
     if desc.get("plan"):
@@ -246,7 +248,7 @@ def verify_replay(repo: str, doc: dict) -> dict:
         classes = sorted({"%s/%s" % _vc(v) for v in r["violations"]})
         return {"reproduced": "%s/%s" % tuple(doc["violation_class"]) in classes, "classes": classes, "same_digest": True,
                 "violations": r["violations"], "result": res}
-    with fresh_worker(repo, t["exe"], int(t["hashseed"])) as fl:
+    with fresh_worker(repo, t["exe"], int(t["hashseed"]), int(t.get("pad", 0)), int(t.get("opt", 0))) as fl:
         r = fl.groups[0][0].request({"cmd": "c16_check", "desc": doc["desc"], "events": True})
     classes = sorted({"%s/%s" % _vc(v) for v in r["violations"]})
     return {"reproduced": "%s/%s" % tuple(doc["violation_class"]) in classes, "classes": classes,
@@ -277,7 +279,9 @@ def run(repo: str, tier: str, seed: int, replay_dir=None, write_ev=True, jobs=No
         if not quiet:
             eprint("[C16 %6.1fs]" % T.s(), *a)
 
-    def merge(r):
+    def merge(r, g=0):
+        for f in r["failures"]:
+            f["group"] = g
         for k in ("probes", "faults", "ungated"):
             dst = cov["faults_fired"] if k == "faults" else cov[k]
             for kk, vv in r[k].items():
@@ -298,8 +302,8 @@ def run(repo: str, tier: str, seed: int, replay_dir=None, write_ev=True, jobs=No
         sb = systematic_bases()
         sjobs = [((i // BATCH) % 4 == 3 and 1 or 0, {"cmd": "c16_batch", "descs": sb[i:i + BATCH], "faults": P["systematic_faults"], "multi": 0})
                  for i in range(0, len(sb), BATCH)]
-        for r in fleet.run(sjobs):
-            merge(r)
+        for (g, req), r in zip(sjobs, fleet.run(sjobs)):
+            merge(r, g)
         cov["phases"]["systematic"] = {"base_cases": len(sb), "what": "every pool program x {no -C, 8 option sets} x {-o, stdout}; "
                                        "translation evaluated against the script for each (P2)",
                                        "with_fault_enumeration": P["systematic_faults"]}
@@ -315,7 +319,7 @@ def run(repo: str, tier: str, seed: int, replay_dir=None, write_ev=True, jobs=No
                               "n_samples": 1 if bi < 4 else 0, "want_digests": bi < nd}))
         first = {}
         for (g, req), r in zip(bjobs, fleet.run(bjobs)):
-            merge(r)
+            merge(r, g)
             first.update(r["digests"])
             samples.extend(r["samples"])
         cov["phases"]["seeded"] = {"base_cases": n, "single_fault_enumeration": "every fault point x every applicable fault kind",
@@ -412,11 +416,12 @@ def run(repo: str, tier: str, seed: int, replay_dir=None, write_ev=True, jobs=No
             for f in cands[:8]:
                 desc = f["desc"]
                 is_real = bool(f.get("real"))
+                wg = fleet.groups[f.get("group", 0)][0]
                 if is_real:
                     mdesc = desc
                     tests = 0
                 else:
-                    sh = Shrinker(w0, vclass)
+                    sh = Shrinker(wg, vclass)
                     if not sh.fails(desc):
                         raise HarnessError("failure did not reproduce before shrinking: %s" % (vclass,))
                     mdesc = sh.shrink(desc)
@@ -424,7 +429,7 @@ def run(repo: str, tier: str, seed: int, replay_dir=None, write_ev=True, jobs=No
                 if is_real:
                     cur_v = f["violations"]
                 else:
-                    cur_v = w0.request({"cmd": "c16_check", "desc": mdesc})["violations"]
+                    cur_v = wg.request({"cmd": "c16_check", "desc": mdesc})["violations"]
                 sig = signature_of(mdesc, vclass, cur_v)
                 if sig in seen_sig:
                     continue
@@ -433,8 +438,8 @@ def run(repo: str, tier: str, seed: int, replay_dir=None, write_ev=True, jobs=No
                     doc = {"property": PROP, "kind": "cli", "real": True, "template": fleet.group_ident(0), "desc": mdesc,
                            "violation_class": list(vclass), "violations": f["violations"], "signature": sig}
                 else:
-                    r = w0.request({"cmd": "c16_check", "desc": mdesc, "events": True})
-                    doc = {"property": PROP, "kind": "cli", "template": fleet.group_ident(0), "desc": mdesc,
+                    r = wg.request({"cmd": "c16_check", "desc": mdesc, "events": True})
+                    doc = {"property": PROP, "kind": "cli", "template": fleet.group_ident(f.get("group", 0)), "desc": mdesc,
                            "violation_class": list(vclass), "violations": r["violations"], "digest": r["digest"],
                            "signature": sig, "origin_seed": f.get("seed"), "shrink_tests": tests,
                            "io_history": r["result"]["history"], "status": r["result"]["status"], "exc": r["result"]["exc"],
@@ -466,7 +471,7 @@ def run(repo: str, tier: str, seed: int, replay_dir=None, write_ev=True, jobs=No
                    "of its fault-free I/O history is failed once with EVERY applicable fault kind (exhaustive single-fault), plus "
                    "seeded 2-3-fault plans; distinct non-trivial = distinct (option-item classes x output mode x input kind x OUT "
                    "state x fault kind x fault position) tuples")
-    cov["samples"] = samples[:4]
+    cov["samples"] = samples[:6]
     cov["distinct_io_histories"] = len(traces)
     cov["distinct_case_classes"] = len(classes)
     cov["base_cases"] = cov.pop("_bases", 0)
